@@ -150,11 +150,33 @@ func ruleWitnessesAreCurrent(c *eng.Ctx) {
 			return
 		}
 		if b, isB := call.Call.Value.(*ssa.Builtin); isB && b.Name() == "delete" && eng.Load(wf, nil)(call.Call.Args[0]) {
-			if g, _ := eng.GuardedBy(fn, in, notW); g && len(notW) > 0 {
-				dels = append(dels, in)
-			}
+			dels = append(dels, in)
 		}
 	})
+	// every witness that fails the test is deleted: from the failed test no path reaches the next iteration (or the count)
+	// without passing a delete. Other reasons to forget a witness (the age of its report) may share the delete.
+	isDel := func(x ssa.Instruction) bool {
+		for _, d := range dels {
+			if d == x {
+				return true
+			}
+		}
+		return false
+	}
+	if len(notW) == 0 {
+		dels = nil
+	} else if len(dels) > 0 {
+		q := &eng.PathQuery{Fn: fn, FromEdges: notW, CutInstr: isDel, Target: func(x ssa.Instruction) bool {
+			switch x.(type) {
+			case *ssa.Next, *ssa.Return:
+				return true
+			}
+			return false
+		}}
+		if q.Find() != nil {
+			dels = nil
+		}
+	}
 	// ... before the table is counted against the quorum
 	okOrder := len(dels) > 0
 	if okOrder {
@@ -164,7 +186,7 @@ func ruleWitnessesAreCurrent(c *eng.Ctx) {
 				return
 			}
 			// the len() operand is evaluated after the pruning loop: no path from the count back into a delete
-			q := &eng.PathQuery{Fn: fn, FromAfter: []ssa.Instruction{in}, Target: func(x ssa.Instruction) bool { return x == dels[0] }}
+			q := &eng.PathQuery{Fn: fn, FromAfter: []ssa.Instruction{in}, Target: isDel}
 			if q.Find() != nil {
 				okOrder = false
 			}
